@@ -132,3 +132,8 @@ Proof.
   rewrite E. apply (quad_exact_on_span 1 (2 * 1 - 1) (fun _ => 2) (fun _ => 0)); [|exact Hp].
   intros m Hm. simpl rsum. assert (m = 0 \/ m = 1)%nat as [->| ->] by lia; unfold cheb_int; simpl; lra.
 Qed.
+
+(* the Gauss-Chebyshev theorem on a concrete instance: 2 points, T_2: sum = 0 *)
+Example gauss_chebyshev_2_T2 :
+  rsum 2 (fun k => wts_GaussChebyshev 2 k * (cheb 2 (pts_GaussChebyshev 2 k) / sqrt (1 - pts_GaussChebyshev 2 k ^ 2))) = 0.
+Proof. rewrite (gauss_chebyshev_exact_lemma 2 2) by lia. reflexivity. Qed.
